@@ -18,6 +18,7 @@ func init() {
 			configReadOnlyRules(c, "C09")
 			negotiateExtensionsRules(c, "C09")
 			headerWriterRules(c, "C09")
+			builtinStatusRules(c, "C09")
 		},
 	})
 }
